@@ -66,3 +66,34 @@ def h_product(c, rtype, version):
 
 
 h_product.must_cover = ["compared"]
+
+
+@harness("C13", "metadata.flag_is_read_only_where_it_may_add_packets", functions=[])
+def h_flag_frames(c):
+    """FRAME obligation (syntactic, conservative) closing the gap the product contract leaves: the product harness excludes the
+    ClientHello / ServerHello branch by precondition.  Here: `exp_meta` (the -a flag inside a Session) is WRITTEN only by the
+    constructor and READ only in the three functions the product contract covers - so hello parsing, key generation, framing,
+    decryption and the output builder cannot behave differently with -a; and OutputBuilder / Decryptor never see the flag."""
+    if c.native:
+        return
+    import ast
+    allowed_readers = {"handle_tls_record", "handle_handshake_finished", "handle_tls_application_record", "handle_tls_13_application_record",
+                       "handle_tls_handshake_record", "handle_alert"}
+    cls = c.const_of(SE)
+    for name, fv in sorted(cls.methods.items()):
+        reads = [n for n in ast.walk(fv.node) if isinstance(n, ast.Attribute) and n.attr == "exp_meta" and isinstance(n.ctx, ast.Load)]
+        writes = [n for n in ast.walk(fv.node) if isinstance(n, ast.Attribute) and n.attr == "exp_meta" and isinstance(n.ctx, (ast.Store, ast.Del))]
+        dyn = [n for n in ast.walk(fv.node) if isinstance(n, ast.Call) and isinstance(n.func, ast.Name) and n.func.id in ("getattr", "setattr", "vars", "hasattr")
+               or isinstance(n, ast.Attribute) and n.attr == "__dict__"]
+        c.ensure("frame[Session.%s].reads_-a_only_in_the_functions_under_the_product_contract" % name, not reads or name in allowed_readers, kind="frame")
+        c.ensure("frame[Session.%s].writes_-a_only_in_the_constructor" % name, not writes or name == "__init__", kind="frame")
+        c.ensure("frame[Session.%s].no_reflective_attribute_access" % name, not dyn, kind="frame")
+    for q in ("tlexport.output_builder.OutputBuilder", "tlexport.decryptor.Decryptor", "tlexport.tlsrecord.TlsRecord"):
+        k = c.const_of(q)
+        for name, fv in sorted(k.methods.items()):
+            uses = [n for n in ast.walk(fv.node) if isinstance(n, (ast.Attribute, ast.Name)) and (getattr(n, "attr", None) == "exp_meta" or getattr(n, "id", None) in ("exp_meta", "metadata") and q.endswith("Decryptor"))]
+            c.ensure("frame[%s.%s].never_sees_the_flag" % (k.name, name), not uses, kind="frame")
+    c.cover("checked")
+
+
+h_flag_frames.must_cover = ["checked"]
